@@ -248,6 +248,8 @@ FINDING_CLASSES = [
      [r"abort:out-of-memory.*", r"abort:capacity-overflow.*", r"panic:library/alloc/src/raw_vec/mod\.rs@.*",
       r"hang:builtin:(make-bytes|make-bytevector|make-string|make-immutable-vector|make-vector|list-drop|range|range-vec|expt|exact-integer-sqrt|square|arithmetic-shift)",
       r"panic:num-bigint/src/biguint/power\.rs@.*"]),
+    # std::thread::spawn panics when the OS refuses a thread (EAGAIN: seen only on a machine at load > 100)
+    ("spawn-native-thread-panics-when-os-refuses-thread", [r"(not-reproduced:)?(panic|thread-panic):library/std/src/thread/(functions|mod)\.rs@.*"]),
     ("mutable-vector-lock-reentry-deadlock", [r"hang:builtin:(vector-append!|vector-fill!|vector-copy!)", r"hang:evaluation-ignores-interrupt"]),
     ("native-stack-overflow-reader", [r"stack-overflow:read"]),
     ("native-stack-overflow-expander", [r"stack-overflow:expand"]),
